@@ -531,9 +531,16 @@ def r3(ctx):
     # reference) is what the next list operation walks into
     if seq and seq[-1][0] == 'free-connection':
         for (nm, ev) in seq[:-1]:
-            if nm not in ('list-removal', 'service-unref'):
+            if nm not in ('list-removal', 'service-unref', 'transport-disconnect'):
                 continue
             hits, _e, _n = f.search(('entry',), goal=lambda x, fr_=seq[-1][1]: x.d is fr_.d, stop=lambda x, ev=ev: x.d is ev.d)
+            if nm == 'transport-disconnect':
+                # the transport's disconnect is also what removes the connection's directory, in every state: a connection that was
+                # refused (never left INACTIVE) or torn down while ACTIVE reaches its last reference in state INACTIVE
+                ctx.check('R3', '%s-on-every-path-to-free' % nm, not hits, ev, 'the connection is never freed without the transport\'s disconnect having run',
+                          'free(c) can be reached without the transport\'s disconnect: it removes the per-connection directory whatever the state, so a refused '
+                          'client (the connection never left INACTIVE) or one that died while ACTIVE leaves its directory under /dev/shm for good')
+                continue
             ctx.check('R3', '%s-on-every-path-to-free' % nm, not hits, ev, 'the connection is never freed without %s' % nm,
                       'free(c) can be reached without %s: the connection is freed while it is still linked into the service\'s list (a connection torn down while ACTIVE is set back to INACTIVE before its last reference goes), and the next add, walk or destroy touches freed memory'
                       % nm if nm == 'list-removal' else 'free(c) can be reached without %s' % nm)
